@@ -205,6 +205,10 @@ let handle (cmd : ostring) (args : ostring list) : ostring =
       show_result (fun l -> hex_of_bytes_strict (x_write_file l)) (x_run pipe_crypto (options_of opts) (secrets_of keylog) (items_of items))
   | "run_tls_file", [opts; keylog; items] ->
       show_result (fun l -> hex_of_bytes_strict (x_write_file l)) (x_run_tls pipe_crypto (options_of opts) (secrets_of keylog) (items_of items))
+  | "pcapng", [file] ->
+      show_result (fun (ti, items) -> hex_of_z ti.ts_base ^ "," ^ hex_of_z ti.ts_exp ^ "," ^ hex_of_z ti.ts_offset ^ ";" ^
+                     String.concat "|" (List.map (function RPkt (t, d) -> "P:" ^ hex_of_z t ^ ":" ^ hex_of_bytes_strict d | RDsb d -> "D:" ^ hex_of_bytes_strict d) items))
+        (x_pcapng (bytes_of_hex file))
   | "keylog", [text] ->
       let lab = function LClientRandom -> "CLIENT_RANDOM" | LRsa -> "RSA" | LClientEarly -> "CLIENT_EARLY_TRAFFIC_SECRET" | LClientHs -> "CLIENT_HANDSHAKE_TRAFFIC_SECRET"
                        | LServerHs -> "SERVER_HANDSHAKE_TRAFFIC_SECRET" | LClientApp -> "CLIENT_TRAFFIC_SECRET_0" | LServerApp -> "SERVER_TRAFFIC_SECRET_0"
